@@ -465,6 +465,9 @@ def gen_C05(rng, tier, want='C05'):
                     if b > n and rng.random() < 0.7: b = n
                     if rs and rng.random() < 0.25: a, b = rs[-1]          # identical
                     rs.append((a, b))
+                if rng.random() < 0.15:
+                    # an empty or reversed range that ends beyond n is still a range ending beyond n
+                    rs.insert(rng.randrange(0, len(rs) + 1), rng.choice([(n + 1, n + 1), (n + 9, n + 3), (n + 2, n + 2), (MAXU, MAXU)])); m = len(rs)
                 k = rng.choice([0, 0, 1, max(0, m - 1), m, m + 1, MAXU])
                 L.append('q 0 intersect %s %d' % (','.join('%d..%d' % r for r in rs) if rs else '-', k))
         cases.append(L)
